@@ -439,6 +439,52 @@ def gen_ap_churn(rng, tight=None):
     return {"peers": peers, "events": ev}
 
 
+def gen_ap_flap(rng):
+    """ADD-PATH peer whose OWN session flaps: three or four eBGP sources of one prefix, send-max 1..2 (paths are held back);
+    while the ADD-PATH peer is away sources withdraw or lose their sessions (their path identifiers are freed), afterwards
+    they come back (identifiers are reused), and the routes are withdrawn one by one with an observation after each."""
+    nsrc = rng.choice([3, 3, 4])
+    peers = [Peer("p%d" % i, "10.0.0.%d" % (i + 1), 65001 + i, "ebgp") for i in range(nsrc)]
+    ap = Peer("p%d" % nsrc, "10.0.0.%d" % (nsrc + 1), 65009, "ebgp", sendmax=rng.choice([1, 2, 2]))
+    peers.append(ap)
+    pf = rng.choice(PREFIXES)
+    src = [p.name for p in peers[:nsrc]]
+
+    def ann(n):
+        p = [q for q in peers if q.name == n][0]
+        return ("ann", n, pf, dict(aspath=[p.asn] + rng.choice([[], [65020], [65020, 65021]]), med=rng.choice([None, 0, 10]), lp=None, origin=rng.choice([0, 1, 2]), comms=[], orig=None, cl=[]))
+    ev = [("up", p.name) for p in peers]
+    order = src[:]
+    rng.shuffle(order)
+    ev += [ann(n) for n in order] + [("obs",)]
+    for _ in range(rng.choice([1, 1, 2])):
+        ev.append(("close", ap.name))
+        away = rng.sample(src, rng.choice([1, 1, 2]))
+        gone = {}
+        for n in away:
+            gone[n] = rng.choice(["close", "wd"])
+            ev.append(("close", n) if gone[n] == "close" else ("wd", n, pf))
+        ev += [("sleep", 5), ("up", ap.name), ("obs",)]
+        rest = [n for n in src if n not in away]
+        rng.shuffle(rest)
+        for n in rest[:rng.choice([1, 1, 2])]:
+            ev.append(("wd", n, pf))
+        for n in away:
+            if gone[n] == "close":
+                ev += [("sleep", 5), ("up", n)]
+            ev.append(ann(n))
+        ev.append(("obs",))
+        for n in rng.sample(away, len(away)):
+            ev += [("wd", n, pf), ("obs",)]
+        for n in rest:
+            ev.append(ann(n))
+        for n in away:
+            if rng.random() < 0.5:
+                ev.append(ann(n))
+        ev.append(("obs",))
+    return {"peers": peers, "events": ev}
+
+
 def sim_line(sc):
     steps = []
     byname = {p.name: p for p in sc["peers"]}
